@@ -43,6 +43,7 @@ var errorFieldOracle = map[byte]string{
 
 func runC17(c *Ctx) {
 	R := c.R
+	defer c.startResetsFrame("C17.S1")
 	R.Technique = "exhaustiveness + operand provenance on ErrorCode, sibling-agreement rules over the discovered decorator types (constructor, Error, Unwrap, getter, Flatten), who-may-write immutability of decorators"
 	R.Explanation = "Decides for every nesting of decorators (the rules are per decorator and per chain step, hence hold for all chains): (R1) every field of errors.Error (enumerated from the type, including nested Source) is emitted by ErrorCode under its protocol code as text - the line number through a decimal formatter - with severity/SQLSTATE/message unconditional and each optional field guarded by its own non-emptiness; " +
 		"(R2) the decorator types are discovered (structs of wire/errors with Unwrap() error), and each must have: Error() returning the cause's text, Unwrap() returning the cause, a constructor returning nil for nil and otherwise a fresh wrapper holding the cause and the decoration, no other store to its fields anywhere (immutable), a getter whose type test of the error itself dominates any unwrapping and whose success edge returns the asserted value's own decoration directly - so the outermost decoration wins - and otherwise recurses on errors.Unwrap(err), and a Flatten field fed by that getter on the error itself; the message is err.Error(); " +
